@@ -80,6 +80,19 @@ struct Crafted {
     kind: CraftKind,
 }
 
+/// An exchange the *device* opens towards the hostile peer (the device is the initiator). When
+/// the hostile peer sees the request it sends, on the same session and with the *same exchange
+/// id*, a mix of messages with the initiator flag set (the peer opening an exchange of its own
+/// whose id happens to collide - legal, both sides allocate ids independently) and clear (answers).
+#[derive(Debug, Clone, Serialize, Deserialize)]
+struct DevInit {
+    start_ms: u16,
+    /// how long the device application keeps receiving on its exchange
+    listen_ms: u16,
+    /// (delay after the request was seen, initiator flag, reliable flag)
+    collide: Vec<(u16, bool, bool)>,
+}
+
 #[derive(Debug, Clone, Serialize, Deserialize)]
 struct C10Case {
     sessions: u8,
@@ -88,6 +101,8 @@ struct C10Case {
     handlers: u8,
     sched: Option<u64>,
     seed: u32,
+    #[serde(default)]
+    dev_init: Vec<DevInit>,
 }
 
 fn beh() -> impl Strategy<Value = Beh> {
@@ -140,14 +155,27 @@ fn case_strategy() -> impl Strategy<Value = C10Case> {
         2u8..5,
         prop_oneof![1 => Just(None), 3 => any::<u64>().prop_map(Some)],
         any::<u32>(),
+        prop_oneof![
+            1 => Just(Vec::new()),
+            1 => prop::collection::vec(
+                (
+                    0u16..4000,
+                    200u16..6000,
+                    prop::collection::vec((0u16..1500, prop::bool::weighted(0.6), any::<bool>()), 1..5),
+                )
+                    .prop_map(|(start_ms, listen_ms, collide)| DevInit { start_ms, listen_ms, collide }),
+                1..3,
+            ),
+        ],
     )
-        .prop_map(|(sessions, honest, crafted, handlers, sched, seed)| C10Case {
+        .prop_map(|(sessions, honest, crafted, handlers, sched, seed, dev_init)| C10Case {
             sessions,
             honest,
             crafted,
             handlers,
             sched,
             seed,
+            dev_init,
         })
 }
 
@@ -426,7 +454,7 @@ fn check(case: &C10Case) -> Case {
     let dev_node: u64 = 0x0000_0000_0001_B66A;
     let hk_in = [0x5au8; 16]; // hostile -> device
     let hk_out = [0xa5u8; 16];
-    if let Err(e) = plant_half(
+    let hostile_sid = match plant_half(
         &device,
         &cd,
         SessKind::Case,
@@ -440,8 +468,14 @@ fn check(case: &C10Case) -> Case {
         1,
         NocCatIds::default(),
     ) {
-        return Case::inconclusive(format!("plant hostile: {e:?}"));
-    }
+        Ok(id) => id,
+        Err(e) => return Case::inconclusive(format!("plant hostile: {e:?}")),
+    };
+    // what the device's own (initiator) exchanges towards the hostile peer were handed:
+    // (dev_init index, origin, claimed exchange id, opcode, protocol)
+    let devinit_log: RefCell<Vec<(usize, u8, u16, u8, u16)>> = RefCell::new(Vec::new());
+    // exchange ids the device used for them (learnt from the wire), per dev_init index
+    let devinit_ids: RefCell<Vec<(usize, u16)>> = RefCell::new(Vec::new());
 
     let dev_log: RefCell<Vec<Observed>> = RefCell::new(Vec::new());
     let invocations = RefCell::new(0usize);
@@ -481,10 +515,25 @@ fn check(case: &C10Case) -> Case {
         // would be observed).
         {
             let (net, ctr) = (&net, &hostile_ack_ctr);
+            let (ids, dev_init) = (&devinit_ids, &case.dev_init);
             ex.spawn("hostile.acks", async move {
                 let mut seen = 0usize;
+                let mut due: Vec<(u64, Crafted)> = Vec::new();
                 loop {
                     Timer::after(Duration::from_millis(10)).await;
+                    let now = clock::now();
+                    let mut k = 0;
+                    while k < due.len() {
+                        if due[k].0 <= now {
+                            let (_, c) = due.remove(k);
+                            ctr.set(ctr.get() + 1);
+                            if let Some(bytes) = craft(&hk_in, hostile_node, 0x0300, ctr.get(), &c, 0x0043_0000, 0) {
+                                net.inject(0, alien_addr(0), bytes);
+                            }
+                        } else {
+                            k += 1;
+                        }
+                    }
                     let new: Vec<Vec<u8>> = net.with_tap(|t| {
                         let v = t.sent.iter().skip(seen).filter(|s| s.src == 0 && s.dst.is_none()).map(|s| s.bytes.clone()).collect();
                         seen = t.sent.len();
@@ -492,6 +541,28 @@ fn check(case: &C10Case) -> Case {
                     });
                     for b in new {
                         if let Some(w) = vh::sim::node::decode_wire(&b, Some(&hk_out), dev_node) {
+                            // a request of a device-initiated exchange: payload = [5, index, ..]
+                            if w.sess_id == 0x0400 && w.initiator && w.proto_id == APP && w.payload.len() >= 2 && w.payload[0] == 5 {
+                                let di = w.payload[1] as usize;
+                                if !ids.borrow().iter().any(|(i, _)| *i == di) {
+                                    ids.borrow_mut().push((di, w.exch_id));
+                                    if let Some(d) = dev_init.get(di) {
+                                        for (delay, initiator, reliable) in &d.collide {
+                                            due.push((
+                                                clock::now() + *delay as u64 * MS,
+                                                Crafted {
+                                                    t_ms: 0,
+                                                    exch_id: w.exch_id,
+                                                    initiator: *initiator,
+                                                    reliable: *reliable,
+                                                    ack: false,
+                                                    kind: CraftKind::App(Beh::Echo),
+                                                },
+                                            ));
+                                        }
+                                    }
+                                }
+                            }
                             if w.reliable && w.sess_id == 0x0400 {
                                 ctr.set(ctr.get() + 1);
                                 let c = Crafted {
@@ -518,6 +589,7 @@ fn check(case: &C10Case) -> Case {
         enum Ev {
             Honest(usize),
             Craft(usize),
+            DevInit(usize),
         }
         let mut evs: Vec<(u64, Ev)> = Vec::new();
         for (i, h) in case.honest.iter().enumerate() {
@@ -525,6 +597,9 @@ fn check(case: &C10Case) -> Case {
         }
         for (i, c) in case.crafted.iter().enumerate() {
             evs.push((t0 + c.t_ms as u64 * MS, Ev::Craft(i)));
+        }
+        for (i, d) in case.dev_init.iter().enumerate() {
+            evs.push((t0 + d.start_ms as u64 * MS, Ev::DevInit(i)));
         }
         evs.sort_by_key(|e| e.0);
         for (t, ev) in evs {
@@ -550,6 +625,39 @@ fn check(case: &C10Case) -> Case {
                                     code: format!("initiate {:?}", e.code()),
                                 }),
                             }),
+                        }
+                    });
+                }
+                Ev::DevInit(i) => {
+                    let d = &case.dev_init[i];
+                    let (m, c, log) = (&device, &cd, &devinit_log);
+                    ex.spawn(&format!("devinit{i}"), async move {
+                        let Ok(mut exch) = Exchange::initiate_for_session(m, c, hostile_sid) else { return };
+                        let req = payload(5, i as u8, 0, Beh::Echo);
+                        if exch.send(MessageMeta::new(APP, OP_REQ, true), &req).await.is_err() {
+                            return;
+                        }
+                        let until = clock::now() + d.listen_ms as u64 * MS;
+                        loop {
+                            let left = until.saturating_sub(clock::now());
+                            if left == 0 {
+                                break;
+                            }
+                            match select(exch.recv(), Timer::after(Duration::from_micros(left))).await {
+                                Either::First(Ok(rx)) => {
+                                    let meta = rx.meta();
+                                    let p = rx.payload();
+                                    let parsed = parse_beh(p);
+                                    log.borrow_mut().push((
+                                        i,
+                                        parsed.map(|x| x.0).unwrap_or(0xff),
+                                        parsed.map(|x| x.1 as u16 | ((x.2 as u16) << 8)).unwrap_or(0xffff),
+                                        meta.proto_opcode,
+                                        meta.proto_id,
+                                    ));
+                                }
+                                Either::First(Err(_)) | Either::Second(_) => break,
+                            }
                         }
                     });
                 }
@@ -648,18 +756,18 @@ fn check(case: &C10Case) -> Case {
             }
         }
     }
-    if let Some(v) = verdict {
-        return v;
-    }
-
     if std::env::var("VH_DEBUG").is_ok() {
         eprintln!("client log: {:#?}", client_log.borrow());
         eprintln!("probe log: {:#?}", probe_log.borrow());
         eprintln!("device log: {:#?}", dev_log.borrow());
         eprintln!("ctrl sessions: {:?}", sessions(&ctrl).iter().map(|s| (s.local_sess_id, s.expired, s.exchanges.len())).collect::<Vec<_>>());
         eprintln!("dev sessions: {:?}", sessions(&device).iter().map(|s| (s.local_sess_id, s.expired, s.exchanges.len())).collect::<Vec<_>>());
-        net.with_tap(|t| for s in t.sent.iter().take(60) { eprintln!("  t={} {}->{:?} len={} {:?}", s.t_us - 1_000_000_000, s.src, s.dst, s.bytes.len(), vh::sim::node::decode_plain(&s.bytes)); });
+        net.with_tap(|t| for s in t.sent.iter().take(200) { eprintln!("  t={} {}->{:?} len={} {:?}", s.t_us - 1_000_000_000, s.src, s.dst, s.bytes.len(), vh::sim::node::decode_plain(&s.bytes)); });
     }
+    if let Some(v) = verdict {
+        return v;
+    }
+
     // ---------------------------------------------------------------- oracle on the logs
     let dl = dev_log.borrow();
     // D1: one handler invocation sees one (origin, tag) only, with increasing seq and only
@@ -700,8 +808,40 @@ fn check(case: &C10Case) -> Case {
             }
         }
     }
-    // D2: the device never opens an exchange towards the hostile peer, so a message of that peer
-    // with the initiator flag clear is an answer to an unknown exchange: it never reaches a handler
+    // D1 for the exchanges the device opened itself: such an exchange is only ever handed
+    // messages that carry its exchange id with the initiator flag CLEAR (answers). A message with
+    // the initiator flag set and the same id belongs to an exchange the peer opened: it must go
+    // to a fresh responder exchange (a handler), never into the device's initiator exchange.
+    {
+        let ids = devinit_ids.borrow();
+        for (di, origin, claimed, opcode, proto) in devinit_log.borrow().iter() {
+            let own = ids.iter().find(|(i, _)| i == di).map(|(_, id)| *id);
+            if *proto == APP && *origin == 3 {
+                return Case::fail(
+                    "D1:peer-initiated-message-reached-own-initiator-exchange",
+                    format!("the exchange the device initiated (id {own:?}) was handed a message with the initiator flag set (claimed exchange id {claimed:#x}, opcode {opcode})"),
+                );
+            }
+            if *proto == APP && (*origin != 4 || Some(*claimed) != own) {
+                return Case::fail(
+                    "D1:message-of-another-exchange",
+                    format!("the exchange the device initiated (id {own:?}) was handed a message of origin {origin} exchange id {claimed:#x}"),
+                );
+            }
+            if *proto == PROTO_ID_SECURE_CHANNEL && *opcode == OpCode::MRPStandAloneAck as u8 {
+                return Case::fail("D2:standalone-ack-reached-a-handler", "a stand-alone ack was handed to the device's own initiator exchange".to_string());
+            }
+        }
+        if !devinit_log.borrow().is_empty() {
+            labels.push("dev-initiated-got-answer".into());
+        }
+        if !ids.is_empty() {
+            labels.push("dev-initiated".into());
+        }
+    }
+    // D2: a message of the hostile peer with the initiator flag clear is an answer; it never
+    // reaches a handler (a responder exchange), whether or not the device has an initiator
+    // exchange with that id
     if let Some(o) = dl.iter().find(|o| o.origin == 4) {
         return Case::fail(
             "D2:answer-to-unknown-exchange-delivered",
@@ -728,7 +868,8 @@ fn check(case: &C10Case) -> Case {
                 };
                 // the handler pool may have been exhausted by Hold behaviours: then the request
                 // is legitimately refused/closed — but that surfaces as an error, not as silence
-                if answers && case.handlers as usize > case.honest.len() + case.crafted.len() {
+                let collisions: usize = case.dev_init.iter().map(|d| d.collide.len()).sum();
+                if answers && case.handlers as usize > case.honest.len() + case.crafted.len() + collisions {
                     return Case::fail(
                         "D4:request-silently-lost",
                         format!("controller exchange tag {} seq {} (behaviour {:?}) got neither a response nor an error within 45 s", r.tag, r.seq, h.beh),
@@ -763,6 +904,7 @@ fn check(case: &C10Case) -> Case {
 }
 
 fn main() {
+    vh::util::init_stderr_log();
     let mut run = Run::new(
         "C10",
         "exploration",
